@@ -9,6 +9,7 @@ import (
 	"go/token"
 	"go/types"
 	"math/big"
+	"strconv"
 	"strings"
 )
 
@@ -315,7 +316,51 @@ func (c *Ctx) readGlobal(s *State, v *types.Var) Value {
 			c.constGlobalUsed(v, iv.T)
 		}
 	}
+	if isConst && !c.eng.contentMutated[v] && c.inQuant == 0 {
+		c.globalMapFacts(s, v, val)
+	}
 	return val
+}
+
+// globalMapFacts: a package-level map[string]string initialised by a literal and never written afterwards holds exactly
+// the literal's entries (in whatever heap state it is read).
+func (c *Ctx) globalMapFacts(s *State, v *types.Var, val Value) {
+	mt, ok := v.Type().Underlying().(*types.Map)
+	if !ok || !isStringType(mt.Key()) || !isStringType(mt.Elem()) {
+		return
+	}
+	cl, ok := unparen(c.eng.globalInits[v]).(*ast.CompositeLit)
+	if !ok {
+		return
+	}
+	m := asInt(val)
+	name := mapKeyName(mt)
+	dom := sel(c.heapGet(s, "D."+name, sA2), m)
+	vm := sel(c.heapGet(s, "V."+name, sA2), m)
+	s.assume(lt("0", m))
+	var keys []string
+	for _, el := range cl.Elts {
+		kv, ok := el.(*ast.KeyValueExpr)
+		if !ok {
+			return
+		}
+		kl, ok1 := kv.Key.(*ast.BasicLit)
+		vl, ok2 := kv.Value.(*ast.BasicLit)
+		if !ok1 || !ok2 || kl.Kind != token.STRING || vl.Kind != token.STRING {
+			return
+		}
+		ks, _ := strconv.Unquote(kl.Value)
+		vs, _ := strconv.Unquote(vl.Value)
+		kid := c.strLit(ks)
+		keys = append(keys, kid)
+		s.assume(and(eq(sel(dom, kid), "1"), eq(sel(vm, kid), c.strLit(vs))))
+	}
+	var alts []string
+	for _, k := range keys {
+		alts = append(alts, eq("k", k))
+	}
+	s.assume(forall([]string{"k"}, "(! "+implies(eq(sel(dom, "k"), "1"), or(alts...))+" :pattern ((select "+dom+" k)))"))
+	c.note("package-level map literals that are never written keep their initial contents: " + v.Pkg().Name() + "." + v.Name())
 }
 
 func (c *Ctx) constGlobalUsed(v *types.Var, term string) {
@@ -325,7 +370,7 @@ func (c *Ctx) constGlobalUsed(v *types.Var, term string) {
 }
 
 func (c *Ctx) writeGlobal(s *State, v *types.Var, val Value) {
-	c.frameWrites[globalKey(v)] = true
+	c.frameEffect(s, globalKey(v))
 	ls := leaves(v.Type())
 	ts := flatten(val, v.Type())
 	for i, l := range ls {
@@ -1276,6 +1321,9 @@ func (c *Ctx) typeFacts() []string {
 	for _, p := range sortedKeys(c.ifacePreds) {
 		it := c.ifacePreds[p].Underlying().(*types.Interface)
 		for _, id := range ids {
+			if c.typeIDs[id] == nil {
+				continue // a type outside the module: nothing known about the interfaces it implements
+			}
 			if types.Implements(c.typeIDs[id], it) {
 				out = append(out, app(p, id))
 			} else {
